@@ -7,7 +7,7 @@ for r in "$@"; do [ -f "$r" ] && mv "$r" $dst/; done
 python3 - "$dst/meta.json" "$res" "$(grep -A3 "== $id" /tmp/verify_*.log 2>/dev/null | cut -c1-400)" <<'P'
 import json,sys
 p,res,conf=sys.argv[1],sys.argv[2],sys.argv[3]
-m=json.load(open(p)); m['verif_result']=res; m['confirmed_by_me']=conf; m['round']=4
+m=json.load(open(p)); m['verif_result']=res; m['confirmed_by_me']=conf; m['round']=int(''.join(ch for ch in p.split('-a')[-1].split('/')[0] if ch.isdigit()) or 4)
 json.dump(m,open(p,'w'),indent=1)
 P
 git -C /repo worktree remove --force /tmp/wt-${id}${WT_SUF:-d} && echo "removed worktree of $id"
